@@ -186,13 +186,13 @@ func allChecksRaw() []*Check {
 				gjf("C14.rootwriter.n4", "VerifC14WriterRoot", 4, "C14.rootwriter.reported/text", "C14.rootwriter.reported/encode", "C14.rootwriter.reported/dryrun", "C14.rootwriter.complete/text"),
 			},
 			Thorough: []Job{
-				gjf("C14.reader.n6", "VerifC14Reader", 6, "C14.reader.nonnil", "C14.reader.is", "C14.reader.nonnil/massive", "C14.reader.is/massive"),
+				gjf("C14.reader.n5", "VerifC14Reader", 5, "C14.reader.nonnil", "C14.reader.is", "C14.reader.nonnil/massive", "C14.reader.is/massive"),
 				{Name: "C14.reader.n4.lifo", Pkg: "gtree", Entry: "VerifC14Reader", N: 4, FSModel: true, Sched: "lifo", Expect: []string{"C14.reader.nonnil/massive", "C14.reader.is/massive"}},
 				{Name: "C14.reader.n4.rnd8", Pkg: "gtree", Entry: "VerifC14Reader", N: 4, FSModel: true, Sched: "rnd8", Expect: []string{"C14.reader.nonnil/massive", "C14.reader.is/massive"}},
 				gjf("C14.writer.n6", "VerifC14Writer", 6, "C14.writer.reported/text", "C14.writer.reported/encode", "C14.writer.reported/dryrun", "C14.writer.complete/text", "C14.writer.complete/encode", "C14.writer.nospurious/dryrun", "C14.writer.reported/massive", "C14.writer.nospurious/massive"),
 				gjf("C14.rootwriter.n6", "VerifC14WriterRoot", 6, "C14.rootwriter.reported/text", "C14.rootwriter.reported/encode", "C14.rootwriter.reported/dryrun", "C14.rootwriter.complete/text"),
 			},
-			Bounds: "well-formed forests of N rows / programs of N nodes (quick 4, thorough 6). Reader: fails with a fresh error after k delivered rows, k symbolic in 0..N, routes iterator/non-iterator text, JSON, YAML, dry-run, walk, and massive-mode text, JSON, walk, mkdir and verify (FIFO; LIFO and 8 pseudo-random schedules in further jobs), k = 0 included (the failure precedes every hand-over). Writer: refuses write number j, j symbolic in 0..N (N = past the last write: never), modes text (both routes), JSON, YAML, TOML (single root), dry-run report, massive text / JSON / dry-run (FIFO policy), From-Root text (fused printer), From-Root JSON, MkdirFromRoot dry-run report on color.Output. Short writes that return a nil error violate io.Writer's contract and are not modelled. More of massive mode: C11.",
+			Bounds: "well-formed forests of N rows / programs of N nodes (quick 4, thorough 6; the reader job 5: at 6 rows a handful of its 78 000 paths end with branch-feasibility queries the solver does not decide in time, i.e. undecided, with the failure value now four-valued). Reader: fails with a solver-chosen error value (fresh, context.Canceled, context.DeadlineExceeded, one that wraps io.EOF) after k delivered rows, k symbolic in 0..N, routes iterator/non-iterator text, JSON, YAML, dry-run, walk, and massive-mode text, JSON, walk, mkdir and verify (FIFO; LIFO and 8 pseudo-random schedules in further jobs), k = 0 included (the failure precedes every hand-over). Writer: refuses write number j, j symbolic in 0..N (N = past the last write: never), modes text (both routes), JSON, YAML, TOML (single root), dry-run report, massive text / JSON / dry-run (FIFO policy), From-Root text (fused printer), From-Root JSON, MkdirFromRoot dry-run report on color.Output. Short writes that return a nil error violate io.Writer's contract and are not modelled. More of massive mode: C11.",
 			Assume: append([]string{parseContract, pathContract, encStub, "fatih/color under NoColor (Sprint is concatenation); bufio.Writer modelled as buffer + one Write at Flush", "reader-failure jobs: the reader's failure is the only failure of the call (massive mkdir: distinct root names; massive verify: every node present)"}, commonAssume...),
 		},
 		{
